@@ -307,7 +307,9 @@ def _filter_chain(ctx, b, sl, op, extra=(), trail=None):
     filters = []
     cur = op
     for _ in range(8):
-        lv = sl.leaves_of_operand(cur)
+        # (what an inlined helper forwards on its error path never reaches the pipeline's consumer)
+        lv = set(x for x in sl.leaves_of_operand(cur)
+                 if not (x[0] == "call" and (x[1] or "").endswith("FromResidual::from_residual")))
         if len(lv) != 1:
             break
         l = list(lv)[0]
@@ -351,6 +353,23 @@ def check_callback_list(ctx, r, b, site, fcont, kb=None):
              if not (l[0] == "call" and (l[1] or "").endswith("FromResidual::from_residual")))
     calls = [l for l in lv if l[0] == "call"]
     ok_src = len(lv) >= 1 and all(l[0] == "call" and _reaches_apply(ctx, Site(b, l[2], b.blocks[l[2]]["term"])) for l in lv)
+    # out-parameter form: the list starts empty and the apply step's result is appended to it (`out.extend(apply(..))`)
+    fills = []
+    if not ok_src and lv and all(l[0] == "call" and l[1] in ("std::vec::Vec::new", "std::vec::Vec::with_capacity",
+                                                             "std::default::Default::default") for l in lv):
+        for s2 in b.calls():
+            if (s2.path or "") not in ("std::iter::Extend::extend", "std::vec::Vec::append", "std::vec::Vec::extend_from_slice") \
+                    or len(s2.term["args"]) < 2 or ctx.world.borrowed_local(b, s2.term["args"][0]) != V:
+                continue
+            src = set(l for l in sl.leaves_of_operand(s2.term["args"][1])
+                      if not (l[0] == "call" and (l[1] or "").endswith("FromResidual::from_residual")))
+            if src and all(l[0] == "call" and not isinstance(l[2], tuple) and
+                           _reaches_apply(ctx, Site(b, l[2], b.blocks[l[2]]["term"])) for l in src) and \
+                    b.dominates(s2.bb, site.bb):
+                fills.append(s2)
+        if fills:
+            ok_src = True
+            lv = set(l for s2 in fills for l in sl.leaves_of_operand(s2.term["args"][1]))
     r.check(ok_src, "list-source", kb,
             "the list deleted at %s is the result of the apply call (%s)" % (site_where(site),
                                                                             ", ".join(fmt_leaf(l) for l in lv)),
@@ -394,7 +413,7 @@ def check_callback_list(ctx, r, b, site, fcont, kb=None):
         else:
             pl0 = place_of(s2.term["args"][0])
             t0 = prog.types[b.locals[pl0["l"]]] if pl0 and not pl0["p"] else {}
-            if t0.get("k") == "ref" and t0.get("mut"):
+            if t0.get("k") == "ref" and t0.get("mut") and s2.bb not in [f_.bb for f_ in fills]:
                 others.append(s2)
     for s2 in retains:
         cls = [t for t, how in prog.call_targets(s2) if how == "extern-cb"]
@@ -593,7 +612,7 @@ def guard_alive(ctx, r, chain):
                         and prog.local_target(a) is not None]
             if not applies_:
                 continue
-            behind = all(fb.dominates(fs.bb, a.bb) for a in applies_ if a.bb in cfgutil.reach(fb, 0))
+            behind = all(ctx.dominates_threaded(fb, fs.bb, a.bb) for a in applies_ if a.bb in cfgutil.reach(fb, 0))
             r.check(behind, "apply-behind-publish", fb,
                     "in %s the applying call lies behind the publish step (%s)" % (fb.path, site_where(fs)),
                     "in %s the index can be updated on a path that did not go through the publish at %s" % (
